@@ -80,7 +80,7 @@ def random_ctree(r, depth, counter):
     if depth <= 0 or r.chance(1, 4):
         counter[0] += 1
         return [r.choice(['send', 'send', 'apply']), counter[0]]
-    k = r.choice(['push', 'push', 'pushmut', 'locked', 'fork', 'raw', 'unrec'])
+    k = r.choice(['push', 'push', 'pushmut', 'locked', 'fork', 'raw', 'unrec', 'rawf', 'unrecf'])
     kids = [random_ctree(r, depth - 1, counter) for _ in range(1 + r.below(3))]
     if k in ('push', 'pushmut'):
         counter[1] += 1
